@@ -64,7 +64,8 @@ def confined_writers(ctx, attr, visited, init_names, label):
 def r04_1(ctx):
     """Receiver transfer function: for every frmNum, expected number (0..7) and reTx flag, the payload is handed
     up iff frmNum == expected; then expected' = (expected+1) % 8 else unchanged; exactly one ACK/NAK is written
-    directly (no await, timer or task), it carries expected', and it is an ACK when the frame was accepted."""
+    directly (no await, timer or task), it carries expected', and it is an ACK when the frame was accepted or is a
+    retransmission (reTx set) of any other number."""
     anchor_attrs(ctx, "AshProtocol", "_rx_seq", "_ezsp_protocol")
     repo = ctx.repo
     f = repo.func(f"{ASH}:AshProtocol.data_frame_received")
@@ -124,6 +125,10 @@ def r04_1(ctx):
                             bad = f"{fr.cls_name} carries ackNum {fr.fields.get('ack_num')!r}, next expected is {exp_rx}"
                         elif frm == rx and fr.cls_name != "AckFrame":
                             bad = "accepted frame answered with a NAK"
+                        elif frm != rx and re_tx and fr.cls_name != "AckFrame":
+                            # UG101: a retransmitted frame that is out of sequence is acknowledged, whatever its number
+                            # (the reference receiver of R04.5 / R02.6 does the same); a NAK makes the NCP repeat it again
+                            bad = "retransmitted out-of-sequence frame answered with a NAK (the reference receiver acknowledges every retransmission)"
                         elif w.kwargs.get("prefix") or w.kwargs.get("suffix"):
                             bad = "ACK/NAK written with a non-default prefix/suffix"
                     reads = {k for k in p.store["self"] if isinstance(k, str)} - {"_rx_seq", "_ezsp_protocol"}
